@@ -201,7 +201,7 @@ pub fn main(args: &Args) {
     let t = run_shards(&pkgs, "C16", args.tier, &[]);
     rep.absorb(t);
     rep.rule = format!(
-        "receivers: every subset of the magic fields for FromDeriveInput (32), FromField / FromVariant / FromTypeParam (16 each), plus wrapped flavors (whole receiver in SpannedValue / WithOriginal; generics as ast::Generics<GenericParam<_>>, WithOriginal<_, syn::Generics>, Result<_>; data with wrapped members and with a custom `with` converter). Inputs: every struct with 0..{} named or tuple fields over 6 field forms (visibility x type x attribute forms incl. failing ones), unit structs, every enum of 0..{} variants over 8 variant forms (all styles, discriminants, failing attributes), unions, x 5 generics forms x 5 container heads. Oracle: each magic member token-equal to the corresponding part of the syn parse of the same source; data/fields kind, style, count, order; failing elements reported exactly (named fields located by name), attribute layer before body; re-printed field lists equal the original up to a trailing comma. Non-trivial = inputs with at least one failing element or a union.",
+        "(bodies also at 6, 9, 17 members with the forms in rotation; flavours built on the library's own element receivers and on from_ident) receivers: every subset of the magic fields for FromDeriveInput (32), FromField / FromVariant / FromTypeParam (16 each), plus wrapped flavors (whole receiver in SpannedValue / WithOriginal; generics as ast::Generics<GenericParam<_>>, WithOriginal<_, syn::Generics>, Result<_>; data with wrapped members and with a custom `with` converter). Inputs: every struct with 0..{} named or tuple fields over 6 field forms (visibility x type x attribute forms incl. failing ones), unit structs, every enum of 0..{} variants over 8 variant forms (all styles, discriminants, failing attributes), unions, x 5 generics forms x 5 container heads. Oracle: each magic member token-equal to the corresponding part of the syn parse of the same source; data/fields kind, style, count, order; failing elements reported exactly (named fields located by name), attribute layer before body; re-printed field lists equal the original up to a trailing comma. Non-trivial = inputs with at least one failing element or a union.",
         args.tier.pick(3, 4),
         args.tier.pick(2, 3)
     );
